@@ -31,7 +31,7 @@ ASSUMPTIONS = [
     "(1e-6) and whose reference flow reaches T_n (1e-4)",
     "MARGIN = 1e-3: points with |S|/T_n below it at the deciding end are excluded",
 ]
-CASE_TIMEOUT = 900
+CASE_TIMEOUT = 240
 CHUNK = 1
 SETTINGS = [(1e-6, 1e-10), (1e-8, 1e-10)]
 MARGIN = 1e-3
